@@ -30,6 +30,12 @@ def prepare():
         if r.returncode != 0:
             raise ToolError("gen.py failed: " + r.stdout + r.stderr)
         env = dict(os.environ, CARGO_NET_OFFLINE="true")
+        # the harness depends on the repository by path: /repo for every registered check; a background exploration
+        # (vp run --with-repo) may point RITI_REPO at a snapshot of the repository instead
+        tmpl = open(os.path.join(VERIF, "harness", "Cargo.toml.in")).read().replace("@REPO@", REPO)
+        ct = os.path.join(VERIF, "harness", "Cargo.toml")
+        if not os.path.exists(ct) or open(ct).read() != tmpl:
+            open(ct, "w").write(tmpl)
         r = subprocess.run(["cargo", "build", "--release", "--offline"], cwd=os.path.join(VERIF, "harness"),
                            capture_output=True, text=True, env=env)
         if r.returncode != 0:
